@@ -75,7 +75,7 @@ def configs(tier, seed):
     # other ways a handler gets at the body: through request.copy(), lazily from the generator it returns, not at all
     for n in ((1, 3, 5) if tier == 'quick' else range(0, 8)):
         for M in ([2, 4] if tier == 'quick' else [1, 2, 4, 7]):
-            for mode in ('copy', 'lazy', 'ignore', 'peekcopy', 'retype'):
+            for mode in ('copy', 'lazy', 'ignore', 'peekcopy', 'retype', 'peeklazy'):
                 out.append(('wsgi-' + mode, n, M, True, None))
     # multipart content type: the body is parsed while it is buffered; it must still arrive byte-exact
     for fam in ((-1,) if tier == 'quick' else (-1, -2)):
@@ -84,6 +84,8 @@ def configs(tier, seed):
     out.append(('wsgi', -1, 5, True, None))
     # the input stream is a plain io.BytesIO holding more than Content-Length (what many servers and test clients hand over)
     out.append(('bytesio', 0, 0, False, None))
+    # one environment fault per execution: a read that fails once (at every read position), a spool file that cannot be created
+    out.append(('faults', 0, 0, False, None))
     # seed extension: one extra (n, M) family, explored just as exhaustively
     extra_n = 9 + seed % 3 if tier == 'quick' else 15 + seed % 2
     out.append(('comp', extra_n, 2 + seed % 5, True, None))
@@ -170,6 +172,15 @@ def run_wsgi(om, ex, n, CL, M, mode='echo'):
                 seen['again'] = app.request.body.read()
                 yield seen['content']
             return g()
+        if mode == 'peeklazy':
+            seen['peek'] = app.request.body.read(1)               # the body is buffered while the handler runs ...
+
+            def g2():
+                yield b'>'
+                seen['content'] = app.request.body.read()       # ... and read while the answer is streamed
+                seen['again'] = app.request.body.read()
+                yield seen['content']
+            return g2()
         if mode == 'copy':
             cp = app.request.copy()                               # the body is reached through a copy of the request only
             seen['content'] = cp.body.read()                      # (the original and a copy taken before anything was buffered are two
@@ -233,7 +244,7 @@ def judge(kind, obs, n, CL, M):
         if obs.get('wsgi_input') != exp:
             return 'wsgi-input', f'buffered wsgi.input holds {obs.get("wsgi_input")!r}, expected {exp!r}'
     else:
-        want = {'wsgi-lazy': b'>' + exp, 'wsgi-ignore': b'ignored'}.get(kind, exp)
+        want = {'wsgi-lazy': b'>' + exp, 'wsgi-peeklazy': b'>' + exp, 'wsgi-ignore': b'ignored'}.get(kind, exp)
         if obs.get('status') != '200 OK' or obs.get('resp_body') != want:
             return 'wsgi-response', f'handler answer was {obs.get("status")} {obs.get("resp_body")!r}, expected 200 {want!r}'
     return None
@@ -324,12 +335,94 @@ def work_bytesio(res, om):
                           'unbuffered_raw_stream': True})
 
 
+class FaultyStream:
+    """answers reads in pieces of `piece` bytes; the read with index `fail_at` raises once (a timeout on the socket)"""
+
+    def __init__(self, data, piece, fail_at):
+        self.data, self.pos, self.piece, self.fail_at = data, 0, piece, fail_at
+        self.reads = 0
+        self.requested = []
+
+    def read(self, n=-1):
+        i = self.reads
+        self.reads += 1
+        self.requested.append(n)
+        if i == self.fail_at:
+            raise TimeoutError('timed out')
+        k = len(self.data) - self.pos if (n is None or n < 0) else min(n, self.piece, len(self.data) - self.pos)
+        out = self.data[self.pos:self.pos + k]
+        self.pos += k
+        return out
+
+
+def fault_case(om, n, CL, M, piece, fail_at, no_spool):
+    """-> (problem or None, outcome label)"""
+    data = data_of(n) + b'NEXT-REQUEST'
+    bm = sut.sub('request_pkg.body_mixin')
+    real_tf = bm.TemporaryFile
+    stream = FaultyStream(data, piece, fail_at)
+    app = om.Ombott({'max_memfile_size': M})
+    seen = {}
+
+    def h():
+        seen['content'] = app.request.body.read()
+        return seen['content']
+    app.route('/p', 'POST', h)
+
+    def refuse(*a, **kw):
+        raise OSError(28, 'No space left on device')
+    if no_spool:
+        bm.TemporaryFile = refuse
+    try:
+        c = wsgi.call(app, wsgi.environ('POST', '/p', input=stream, clen=CL))
+    finally:
+        bm.TemporaryFile = real_tf
+    exp = data[:CL]
+    if 'content' in seen or c.code == 200:
+        if seen.get('content') != exp or (c.code == 200 and c.body != exp):
+            return (f'the handler was given {seen.get("content")!r} (answer {c.status} {c.body[:40]!r}); the body is {exp!r}', 'served')
+        if stream.pos > CL:
+            return (f'{stream.pos} bytes were taken from the connection, Content-Length is {CL}', 'served')
+        return None, 'served'
+    if c.escaped is None and (c.code is None or c.code < 400):
+        return f'status {c.status} without the handler having seen a body', 'odd'
+    if stream.pos > CL:
+        return (f'answered {c.status if c.escaped is None else repr(c.escaped)}, but {stream.pos} bytes were taken from the connection, Content-Length is {CL}', 'failed')
+    return None, 'failed'
+
+
+def work_faults(res, om):
+    c = res['counters']
+    for n in (3, 6, 10):
+        for M in (2, 4, 64):
+            for piece in (1, 3, 100):
+                CL = n
+                for no_spool in (False, True):
+                    for fail_at in ([None] if no_spool else []) + list(range(0, n + 3)):
+                        case = {'kind': 'faults', 'n': n, 'CL': CL, 'M': M, 'piece': piece, 'fail_at': fail_at, 'no_spool': no_spool, 'choices': []}
+                        core.track(res, case)
+                        bad, label = fault_case(om, n, CL, M, piece, fail_at, no_spool)
+                        res['execs'] += 1
+                        res['states'] += 1
+                        res['transitions'] += 1
+                        res['nontrivial'] += 1
+                        c['fault_cases'] += 1
+                        c['fault_' + label] += 1
+                        res['outcomes'].add('fault: ' + (label if bad is None else 'BAD'))
+                        if bad:
+                            core.add_violation(res, case, f'{case}: {bad}', sig='faults:' + label)
+    core.untrack()
+
+
 def work(spec):
     kind, n, M, merge, bound, cls = spec
     res = core.new_result()
     om = sut.load()
     if kind == 'bytesio':
         work_bytesio(res, om)
+        return res
+    if kind == 'faults':
+        work_faults(res, om)
         return res
     runner = run_component if kind == 'comp' else (lambda om_, e_, n_, cl_, m_: run_wsgi(om_, e_, n_, cl_, m_, kind[5:] or 'echo'))
     for CL in (cls or cls_for(n)):
@@ -369,6 +462,15 @@ def work(spec):
 
 def replay(case):
     om = sut.load()
+    if case['kind'] == 'faults':
+        bad, label = fault_case(om, case['n'], case['CL'], case['M'], case['piece'], case['fail_at'], case['no_spool'])
+        if bad is None:
+            return None
+        fault = ('the temporary file for bodies above max_memfile_size cannot be created (OSError)' if case['no_spool'] else '') + \
+                (' and ' if case['no_spool'] and case['fail_at'] is not None else '') + \
+                (f'read #{case["fail_at"]} on wsgi.input raises TimeoutError once' if case['fail_at'] is not None else '')
+        return (f'POST of {case["n"]} bytes (Content-Length={case["CL"]}, max_memfile_size={case["M"]}, the connection holds the next request behind the body and answers '
+                f'reads with at most {case["piece"]} bytes); {fault}: {bad}')
     if case['kind'] == 'bytesio':
         obs, data = run_bytesio(om, case['n'], case['CL'], case['M'], case['extra'], case.get('spelling'), bool(case.get('raw')))
         exp = expected(data, case['CL'])
@@ -389,6 +491,7 @@ def replay(case):
     answers = [k for _, k in obs['calls']]
     how = {'wsgi-copy': ' (handler reads request.copy().body)', 'wsgi-lazy': ' (handler returns a generator that reads request.body after its first chunk)',
            'wsgi-ignore': ' (handler does not look at the body)', 'wsgi-peekcopy': ' (handler reads 1 byte of request.body, then request.copy().body)',
+           'wsgi-peeklazy': ' (handler reads 1 byte of request.body and returns a generator that reads request.body after its first chunk)',
            'wsgi-retype': ' (handler reads 2 bytes of request.body, assigns request["CONTENT_TYPE"], reads request.body)'}.get(case['kind'], '')
     how += f' [{method_for(n, M, case["kind"] != "comp")} request]'
     return (f'{case["kind"]}{how}: data={data_of(n)!r} Content-Length={CL} max_memfile_size={M}; stream answered the '
